@@ -14,6 +14,7 @@ import (
 )
 
 type UnitResult struct {
+	Mode         string
 	Unit         string
 	Pkg          string
 	Obls         []*Obligation
@@ -319,10 +320,12 @@ func (x *Unit) resetForSecondPass() {
 	x.newErrs, x.newCtxs = nil, nil
 	x.U.fresh = 0
 	x.loopStmtStack = nil
+	x.retOrd = 0
+	x.covers = nil
 }
 
 func (x *Unit) verifyOnce() (res *UnitResult) {
-	res = &UnitResult{Unit: x.FU.Name, Pkg: x.FU.Pkg.Name, U: x.U}
+	res = &UnitResult{Unit: x.FU.Name, Pkg: x.FU.Pkg.Name, U: x.U, Mode: x.mode}
 	defer func() {
 		if r := recover(); r != nil {
 			if ue, ok := r.(unsupportedErr); ok {
@@ -407,6 +410,10 @@ func (x *Unit) verifyOnce() (res *UnitResult) {
 			x.clausePos[r] = x.FU.Body.Lbrace + 1
 			x.assume(st, x.specBool(st, r, nil))
 		}
+		for _, r := range c.Monitor {
+			x.assume(st, x.specBool(st, r, nil))
+			x.assumedAt = append(x.assumedAt, fmt.Sprintf("%s: type invariant %s assumed at entry (re-established at every exit of every method; fields are package-private)", x.FU.Name, r.Label))
+		}
 		x.assumeAxioms(st)
 		for _, l := range c.Lets {
 			e, err := ParseSpec(l.Init)
@@ -438,6 +445,14 @@ func (x *Unit) verifyOnce() (res *UnitResult) {
 				x.usedActions[a] = true
 				x.runAction(normal, a)
 			}
+		}
+		for _, en := range c.Monitor {
+			if x.pass == 1 {
+				continue
+			}
+			env := x.unitEnv(normal, nil)
+			env.paramOld = true
+			x.oblige(normal, "typeinv", en.Label, x.tagsOr(en.Tags), env.boolOf(en.Expr), en.Src, x.FU.Body)
 		}
 		for _, en := range c.Ensures {
 			env := x.unitEnv(normal, nil)
@@ -480,6 +495,7 @@ func (x *Unit) verifyOnce() (res *UnitResult) {
 	// vacuity cover: the normal exit must be reachable
 	cov := &Obligation{Name: x.FU.Pkg.Name + "." + x.FU.Name + "#cover[exit_reachable]", Kind: "cover", Label: "exit_reachable", PC: Or(normal.pc, panicking.pc), Cond: False, NAssume: len(x.assumes), Src: "some exit is reachable under the preconditions (must NOT be provable unreachable)", Unit: x.FU.Name, IsCover: true}
 	x.obls = append(x.obls, cov)
+	x.obls = append(x.obls, x.covers...)
 	res.Obls = x.obls
 	res.Assumes = x.assumes
 	res.Warnings = x.warnings
